@@ -113,6 +113,9 @@ def parse_sort(s: str):
         return ("opaque", s[7:])
     if s.startswith("Py:"):
         return ("py", s[3:])
+    if s.startswith("Raw:"):
+        _, bits, sg = s.split(":")
+        return ("raw", int(bits), sg == "s")
     m = {"Int": "int", "Bool": "bool", "Bytes": "bytes", "IntList": "ilist", "IntDeque": "ideque",
          "Float": "float", "Str": "str", "None": "none", "ByteArray": "bytes", "Dir": "dir"}
     if s in m:
@@ -176,4 +179,7 @@ def fresh_of_sort(sort, base: str, facts: list) -> V:
         return V("opaque", z3.Const(fresh_name(base), opaque_sort(sort[1])), sort[1])
     if k == "dir":
         return V("dir", z3.Bool(fresh_name(base + "_is_out")))
+    if k == "raw":
+        bv = z3.BitVec(fresh_name(base), sort[1])
+        return V("int", z3.SignExt(64 - sort[1], bv) if sort[2] else z3.ZeroExt(64 - sort[1], bv))
     raise ValueError(sort)
